@@ -155,7 +155,7 @@ pub fn desugar_tok(op: Op, p: &Partial) -> CmpSet {
 /// None = the alternative holds no comparator at all and is dropped.
 pub fn desugar_alt(alt: &Alt) -> Option<CmpSet> {
     match alt {
-        Alt::Hyphen { lo, hi } => {
+        Alt::Hyphen { lo, hi, .. } => {
             let mut out = vec![];
             if let Some(lo) = lo {
                 let (a, b, c, pre) = norm(lo);
